@@ -297,7 +297,7 @@ static void write_objective (
 	const char *objname,
 	char **colnames)
 {
-	int ri, i, k, var;
+	int ri, i, k, var, nterms = 0;
 	EGLPNUM_TYPENAME_ILLwrite_lp_state ln, *line = &ln;
 
 	if (lp->probname != NULL)
@@ -327,6 +327,7 @@ static void write_objective (
 			EGLPNUM_TYPENAME_ILLwrite_lp_state_append (line, " ");
 			EGLPNUM_TYPENAME_ILLwrite_lp_state_append (line, colnames[ri]);
 			var++;
+			nterms++;
 
 			/* we put a least 4 terms on a line 
 			 * and then we stop after LINE_LEN or more characters 
@@ -358,7 +359,9 @@ static void write_objective (
 			}
 		}
 	}
-	if (var > 0)
+	/* an objective without terms still needs its name: the reader would
+	 * otherwise call it "obj", which may be the name of a row */
+	if (var > 0 || nterms == 0)
 	{
 		EGLPNUM_TYPENAME_ILLprint_report (lp, "%s\n", line->buf);
 	}
